@@ -229,12 +229,6 @@ fn alphabet(run: &Run) -> Vec<Tx> {
                 if q && packed == 2 && init == 0 && e.new.is_none() {
                     continue;
                 }
-                // mode 2 removes the loose source reference after writing it to packed-refs; for a direct (non-deref) update of
-                // HEAD that leaves no HEAD file at all and the directory is no repository any more -- with or without a crash.
-                // That is a question of transaction semantics (C16), not of crash consistency, and is excluded here.
-                if packed == 2 && e.name == "HEAD" && !e.deref && matches!(e.new, Some(Val::Id(_))) {
-                    continue;
-                }
                 txs.push(Tx { init, edits: vec![e], packed });
             }
             // two-edit transactions
